@@ -89,6 +89,9 @@ namespace
         std::vector<NodeSpec>                               nodes;
         std::vector<std::pair<std::int64_t, std::int64_t>>  seeds;
         Companion                                           comp;
+        std::vector<Line>                                   specs;       // lines 10: parametrised schemas to request
+        std::int64_t                                        chain_runs{0};  // line 11: chained companion runs
+        bool                                                chain_sparse{false};
     };
 
     struct RunCtx
@@ -546,10 +549,10 @@ namespace
     struct CompSinkTag {};
 #endif
 
-    GraphExecutorBuilder make_comp_builder(const Prog *p)
+    // the companion graph; `sparse` selects the recorder's (time, delta) layout instead of the cycle-aligned one
+    GraphBuilder make_comp_graph(const Prog *p, bool sparse)
     {
         const Types ty = types();
-        GraphExecutorBuilder eb;
 #ifndef HGV_REPRO_NO_RECORD
         Wiring        w;
         WiringPortRef src = w.add_unique_node(std::type_index(typeid(CompSourceTag)), comp_source(p, ty),
@@ -559,18 +562,61 @@ namespace
                                                  std::span<const WiringPortRef>{nin}, Value{});
         std::vector<WiringPortRef> sin{nested};
         w.add_unique_node(std::type_index(typeid(CompSinkTag)), comp_sink(p, ty), std::span<const WiringPortRef>{sin}, Value{});
-        wire<stdlib::dense_record_impl>(w, Port<TS<Int>>{w, WiringPortRef{nested}}, Str{"rec"});
+        if (sparse) { wire<stdlib::dense_record_impl>(w, Port<TS<Int>>{w, WiringPortRef{nested}}, Str{"rec"}, Bool{true}); }
+        else { wire<stdlib::dense_record_impl>(w, Port<TS<Int>>{w, WiringPortRef{nested}}, Str{"rec"}); }
         GraphBuilder gb = std::move(w).finish();
 #else
+        static_cast<void>(sparse);
         GraphBuilder gb;
         gb.add_node(comp_source(p, ty)).add_node(comp_nested(p, ty)).add_node(comp_sink(p, ty));
         gb.add_edge(GraphEdge{.source_node = 0, .source_path = {}, .target_node = 1, .target_path = {0}});
         gb.add_edge(GraphEdge{.source_node = 1, .source_path = {}, .target_node = 2, .target_path = {0}});
 #endif
-        auto gs = gb.global_state();
+        return gb;
+    }
+
+    GraphExecutorBuilder make_comp_builder(const Prog *p)
+    {
+        GraphBuilder gb = make_comp_graph(p, false);
+        auto         gs = gb.global_state();
         for (const auto &[k, v] : p->seeds) { gs.set(key_name(k), Value{v}); }
+        GraphExecutorBuilder eb;
         eb.graph_builder(std::move(gb)).start_time(dt(p->start)).end_time(dt(p->end));
         return eb;
+    }
+
+    // the recorded buffer of a finished companion run: dense 32 index 1 value / sparse 34 cycle value; 33 entries
+    void print_recording(GlobalStateView gs, bool sparse, hgv::Out &out)
+    {
+#ifndef HGV_REPRO_NO_RECORD
+        try
+        {
+            if (sparse)
+            {
+                const auto rec = testing::get_recorded_sparse(gs, "rec");
+                for (const auto &[cycle, delta] : rec) { out.line({34, (std::int64_t)cycle, (std::int64_t)delta.view().checked_as<Int>()}); }
+                out.line({33, (std::int64_t)rec.size()});
+            }
+            else
+            {
+                const auto   rec = testing::get_recorded_values<Int>(gs, "rec");
+                std::int64_t idx = 0;
+                for (const auto &v : rec)
+                {
+                    if (v.has_value()) { out.line({32, idx, 1, (std::int64_t)*v}); }
+                    ++idx;
+                }
+                out.line({33, (std::int64_t)rec.size()});
+            }
+        }
+        catch (const std::exception &e)
+        {
+            out.line({19, 4});
+            std::fprintf(stderr, "companion read-back error: %s\n", e.what());
+        }
+#else
+        static_cast<void>(gs); static_cast<void>(sparse); static_cast<void>(out);
+#endif
     }
 
     void run_companion(const Prog *p, GraphExecutorValue &executor, RunCtx &r)
@@ -585,26 +631,168 @@ namespace
         }
         tl_run = nullptr;
         auto gs = ev.graph().global_state();
-#ifndef HGV_REPRO_NO_RECORD
-        // the recorded buffer (dense, indexed by cycle offset from MIN_ST): 32 index present value
+        print_recording(gs, false, r.out);
+        dump_global_state(gs, r.out);
+    }
+
+    // ------------------------------------------------------------------ parametrised schemas (lines 10 <spec>)
+    // spec := 0 s (TS[s]) | 1 s (TSS[s]) | 2 s spec (TSD[s, spec]) | 3 n spec (TSL[spec, n]) | 4 s period min_period (TSW)
+    //       | 5 nf (name spec)* (un-named TSB, field "f<name>") | 6 spec (REF[spec]);   scalars s: 0 int64, 1 double, 2 bool
+    const ValueTypeMetaData *scalar_of(std::int64_t id)
+    {
+        auto &registry = TypeRegistry::instance();
+        switch (id)
+        {
+            case 0: return registry.register_scalar<std::int64_t>("int64");
+            case 1: return registry.register_scalar<double>("float");
+            case 2: return registry.register_scalar<bool>("bool");
+            default: throw std::invalid_argument("hgv: unknown scalar id");
+        }
+    }
+
+    const TSValueTypeMetaData *build_type(const Line &l, std::size_t &pos)
+    {
+        auto              &registry = TypeRegistry::instance();
+        const std::int64_t kind     = l.at(pos++);
+        switch (kind)
+        {
+            case 0: return registry.ts(scalar_of(l.at(pos++)));
+            case 1: return registry.tss(scalar_of(l.at(pos++)));
+            case 2: { const auto *k = scalar_of(l.at(pos++)); const auto *v = build_type(l, pos); return registry.tsd(k, v); }
+            case 3: { const std::int64_t n = l.at(pos++); const auto *e = build_type(l, pos); return registry.tsl(e, (std::size_t)n); }
+            case 4:
+            {
+                const auto *sc = scalar_of(l.at(pos++));
+                const std::int64_t period = l.at(pos++), minp = l.at(pos++);
+                return registry.tsw(sc, (std::size_t)period, (std::size_t)minp);
+            }
+            case 5:
+            {
+                const std::int64_t nf = l.at(pos++);
+                std::vector<std::pair<std::string, const TSValueTypeMetaData *>> fields;
+                for (std::int64_t f = 0; f < nf; ++f)
+                {
+                    const std::int64_t name = l.at(pos++);
+                    fields.emplace_back("f" + std::to_string(name), build_type(l, pos));
+                }
+                return registry.un_named_tsb(fields);
+            }
+            case 6: return registry.ref(build_type(l, pos));
+            default: throw std::invalid_argument("hgv: unknown schema kind");
+        }
+    }
+
+    std::int64_t scalar_id(const ValueTypeMetaData *m)
+    {
+        for (std::int64_t id = 0; id < 3; ++id) { if (m == scalar_of(id)) { return id; } }
+        return -1;
+    }
+
+    // what the schema the registry handed out SAYS it is, in the spec encoding
+    void describe(const TSValueTypeMetaData *m, Line &out)
+    {
+        auto &registry = TypeRegistry::instance();
+        if (m == nullptr) { out.push_back(-9); return; }
+        switch (m->kind)
+        {
+            case TSTypeKind::TS: out.push_back(0); out.push_back(scalar_id(m->value_type)); break;
+            case TSTypeKind::TSS:
+            {
+                std::int64_t id = -1;
+                for (std::int64_t s = 0; s < 3; s += 2) { if (m->value_type == registry.set(scalar_of(s))) { id = s; } }
+                out.push_back(1); out.push_back(id);
+                break;
+            }
+            case TSTypeKind::TSD: out.push_back(2); out.push_back(scalar_id(m->key_type())); describe(m->element_ts(), out); break;
+            case TSTypeKind::TSL: out.push_back(3); out.push_back((std::int64_t)m->fixed_size()); describe(m->element_ts(), out); break;
+            case TSTypeKind::TSW:
+                out.push_back(4); out.push_back(scalar_id(m->value_type));
+                out.push_back((std::int64_t)m->period()); out.push_back((std::int64_t)m->min_period());
+                break;
+            case TSTypeKind::TSB:
+                out.push_back(5); out.push_back((std::int64_t)m->field_count());
+                for (std::size_t f = 0; f < m->field_count(); ++f)
+                {
+                    const std::string name = m->fields()[f].name != nullptr ? m->fields()[f].name : "";
+                    std::int64_t      id   = -1;
+                    if (name.size() > 1 && name[0] == 'f') { try { id = std::stoll(name.substr(1)); } catch (...) { id = -1; } }
+                    out.push_back(id);
+                    describe(m->fields()[f].type, out);
+                }
+                break;
+            case TSTypeKind::REF: out.push_back(6); describe(m->referenced_ts(), out); break;
+            default: out.push_back(-8); break;
+        }
+    }
+
+    // run-time probe of a tick window TSW[int64, period, min_period]: a source pushes 1, 2, .. on `count` consecutive
+    // cycles, a sink prints what it sees:  51 cycle size period min_period valid all_valid (contents)*
+    void run_window_probe(const TSValueTypeMetaData *tsw, std::int64_t count, hgv::Out &out)
+    {
+        const auto *input = testing::single_input_schema(*tsw);
+        NodeTypeMetaData ss;
+        ss.display_name      = "hgv_window_source";
+        ss.output_schema     = tsw;
+        ss.node_kind         = NodeKind::PullSource;
+        ss.schedule_on_start = true;
+        NodeCallbacks sc;
+        sc.evaluate = [count](const NodeView &view, DateTime t) {
+            const std::int64_t n = us(t) - us(MIN_ST) + 1;
+            {
+                auto  o        = view.output(t);
+                auto  window   = o.as_window();
+                auto  mutation = window.begin_mutation(t);
+                Value v{n};
+                mutation.push(v.view());
+            }
+            if (n < count) { view.graph_value()->schedule_node(view.node_index(), t + MIN_TD); }
+        };
+        NodeTypeMetaData ks;
+        ks.display_name = "hgv_window_sink";
+        ks.input_schema = input;
+        ks.node_kind    = NodeKind::Sink;
+        NodeCallbacks kc;
+        hgv::Out     *po = &out;
+        kc.evaluate = [po](const NodeView &view, DateTime t) {
+            auto root   = view.input(t);
+            auto bundle = root.as_bundle();
+            auto in     = bundle[0];
+            auto window = in.as_window();
+            Line l{51, us(t) - us(MIN_ST), (std::int64_t)window.size(), (std::int64_t)window.period(),
+                   (std::int64_t)window.min_period(), in.valid(), in.all_valid()};
+            for (std::size_t i = 0; i < window.size(); ++i) { l.push_back(window.at(i).template checked_as<std::int64_t>()); }
+            po->line(l);
+        };
+        GraphBuilder gb;
+        gb.add_node(NodeBuilder::native(std::move(ss), std::move(sc)))
+            .add_node(NodeBuilder::native(std::move(ks), std::move(kc), testing::single_input_endpoint(*input, *tsw)))
+            .add_edge(GraphEdge{.source_node = 0, .source_path = {}, .target_node = 1, .target_path = {0}});
+        GraphExecutorBuilder eb;
+        eb.graph_builder(std::move(gb)).start_time(MIN_ST).end_time(MIN_ST + TimeDelta{count + 3});
+        GraphExecutorValue ex = eb.make_executor();
+        ex.view().run();
+    }
+
+    // one schema request:  50 section <what the returned schema says it is>;  52 same-pointer-on-second-request;
+    // for a top-level int64 tick window additionally the run-time probe (51 lines)
+    void probe_schema(std::int64_t section, const Line &spec, hgv::Out &out)
+    {
         try
         {
-            const auto   rec = testing::get_recorded_values<Int>(gs, "rec");
-            std::int64_t idx = 0;
-            for (const auto &v : rec)
-            {
-                if (v.has_value()) { r.out.line({32, idx, 1, (std::int64_t)*v}); }
-                ++idx;
-            }
-            r.out.line({33, (std::int64_t)rec.size()});
+            std::size_t pos  = 1;
+            const auto *meta = build_type(spec, pos);
+            Line        l{50, section};
+            describe(meta, l);
+            out.line(l);
+            std::size_t pos2 = 1;
+            out.line({52, build_type(spec, pos2) == meta});
+            if (spec.size() >= 5 && spec[1] == 4 && spec[2] == 0) { run_window_probe(meta, spec[3] + 2, out); }
         }
         catch (const std::exception &e)
         {
-            r.out.line({19, 4});
-            std::fprintf(stderr, "companion read-back error: %s\n", e.what());
+            out.line({19, 5});
+            std::fprintf(stderr, "schema probe error: %s\n", e.what());
         }
-#endif
-        dump_global_state(gs, r.out);
     }
 
     // ------------------------------------------------------------------ case parsing
@@ -651,6 +839,8 @@ namespace
                     }
                     break;
                 case 8: cd.progs.emplace_back(); cur = &cd.progs.back(); break;
+                case 10: if (l.size() >= 3) { cur->specs.push_back(l); } break;
+                case 11: if (l.size() >= 3) { cur->chain_runs = l[1]; cur->chain_sparse = l[2] != 0; } break;
                 case 9:
                     if (l.size() >= 6) { cd.R = l[1]; cd.F = l[2]; cd.T = l[3]; cd.sleep_seed = l[4]; cd.flags = l[5]; }
                     break;
@@ -874,6 +1064,58 @@ namespace
             // types happens on several threads at once (per-type lazy initialisation would be hit concurrently)
             if (f_tfirst) { thread_phase(); sequential_phases(); }
             else { sequential_phases(); thread_phase(); }
+
+            // ---- chained companion runs (header 44 k sparse): run k+1's builder GlobalState is seeded from run k's FINAL
+            // GlobalState (the copy-back flow); each run's recording must hold its own ticks only
+            if (mainp->comp.present && mainp->chain_runs > 0)
+            {
+                std::optional<GraphExecutorBuilder> prev_builder;  // declared first: destroyed after the executor
+                std::optional<GraphExecutorValue>   prev;
+                for (std::int64_t k = 0; k < mainp->chain_runs; ++k)
+                {
+                    GraphBuilder gb = make_comp_graph(mainp, mainp->chain_sparse);
+                    if (prev) { gb.global_state().copy_from(prev->view().graph().global_state()); }
+                    else
+                    {
+                        auto gs = gb.global_state();
+                        for (const auto &[key, v] : mainp->seeds) { gs.set(key_name(key), Value{v}); }
+                    }
+                    std::optional<GraphExecutorBuilder> eb;
+                    eb.emplace();
+                    eb->graph_builder(std::move(gb)).start_time(dt(mainp->start)).end_time(dt(mainp->end));
+                    RunCtx r = fresh_ctx(mainp, (std::uint64_t)cd.sleep_seed, ++ordinal);
+                    std::optional<GraphExecutorValue> ex;
+                    ex.emplace(eb->make_executor());
+                    tl_run = &r;
+                    try { ex->view().run(); }
+                    catch (const std::exception &e)
+                    {
+                        r.out.line({19, 1});
+                        std::fprintf(stderr, "chained companion error: %s\n", e.what());
+                    }
+                    tl_run = nullptr;
+                    print_recording(ex->view().graph().global_state(), mainp->chain_sparse, r.out);
+                    out.line({44, k, (std::int64_t)mainp->chain_sparse});
+                    out.buf += r.out.buf;
+                    prev.reset();            // executor before its builder
+                    prev_builder.reset();
+                    prev_builder = std::move(eb);
+                    prev         = std::move(ex);
+                }
+            }
+
+            // ---- parametrised schemas (header 43 section): flag 2 -> the noise programs' variants are requested first
+            {
+                std::vector<std::size_t> order;
+                for (std::size_t sct = 0; sct < cd.progs.size(); ++sct) { order.push_back(sct); }
+                if (f_overlap) { std::reverse(order.begin(), order.end()); }
+                for (const std::size_t sct : order)
+                {
+                    if (cd.progs[sct].specs.empty()) { continue; }
+                    out.line({43, (std::int64_t)sct, 0});
+                    for (const Line &spec : cd.progs[sct].specs) { probe_schema((std::int64_t)sct, spec, out); }
+                }
+            }
             // all executors are destroyed here, on the main thread, after every run finished
         }
         catch (const std::exception &e)
